@@ -1326,8 +1326,9 @@ class RawAlgorithmsMixIn:
 
         (xbar_data, ybar_data) = out
 
+        # z_ij = x_i y_j:  xbar_i = sum_j zbar_ij y_j,  ybar_j = sum_i zbar_ij x_i
         xbar_data += cls._dot(zbar_data, y_data, out = xbar_data.copy())
-        ybar_data += cls._dot(zbar_data, x_data, out = ybar_data.copy())
+        ybar_data += cls._dot(cls._transpose(zbar_data), x_data, out = ybar_data.copy())
 
         return out
 
